@@ -12,6 +12,8 @@ UNITS += [dict(u, enforce=['add', 'at']) for u in _c12.UNITS if u['name'] == 'at
 UNITS += [dict(u, enforce=['queue_notification', 'queue_indication']) for u in _c12.UNITS if u['name'] == 'impl1']
 # the index a notification is requested under by value is the index that is resolved when the PDU is built (C10ni.py)
 UNITS += _load('C10ni').UNITS
+# the request on its way from the application to the queue: server<>::notify / indicate and the link layer's call back (C10rq.py)
+UNITS.append(_load('C10rq').UNIT)
 
 META = dict(
     level='other',
@@ -29,6 +31,7 @@ META = dict(
                  "(index_of< ClientCharacteristicIndex, cccd_indices >) denote that same position, and that stable_sort / fold_left build the lists as named - template meta programs "
                  "evaluated by the compiler; seeded/C10_cccd_indices_inverse_permutation lives there and is not reported; the native replay compares by-value and by-UUID requests "
                  "on real servers for every priority placement",
-                 "server::notify / indicate bodies only forward the computed index to the link layer callback (read, not proved)"],
+                 "unit request: server::notify / indicate (all four) hand exactly the data find_notification_data / find_notification_by_uuid computed to the link layer's call back, "
+                 "queue_lcap_notification queues it under that position (real bodies; the static look up of a characteristic by UUID and its static_asserts are compile time)"],
     trusted_base=["link layer notification queue wiring (queue_lcap_notification)"],
 )
